@@ -14,6 +14,7 @@ import collections
 import json
 import os
 import random
+import re
 import shutil
 import sys
 from concurrent.futures import ThreadPoolExecutor
@@ -25,7 +26,7 @@ import c12_gen as G
 
 SHARDS_OK = 8
 RT_POOL = [2, 3, 4, 5, 6, 11, 12, 13, 16, 17, 25, 26, 27, 28, 29, 30]
-MEM_SIZES = [0, 1, 2, 4, 6, 8, 10, 16, 32, 48, 64]
+MEM_SIZES = [0, 1, 2, 4, 6, 8, 10, 16, 32, 48, 63, 64, 65, 128, 255]     # 64/65: the clamp of the byte-mask width (lsb_mask(min(size, 64)))
 
 
 def run_stream(exe, cmds, shards=8, timeout=900):
@@ -73,6 +74,36 @@ def random_cmds(rng, T, n):
                 ops.append("n")
         opt = rng.choice([0, 0, 0, G.OPT_ZMASK, G.OPT_ER, G.OPT_ZMASK | G.OPT_ER])
         cmds.append("Q %d %d %d %d %d %s" % (rng.randrange(2), iid, opt, rng.choice([0, 0, 1]), nops, " ".join(ops)))
+    return cmds
+
+
+def boundary_cmds(T, TA):
+    """deterministic commands at the case-split boundaries of the model / proofs: all 256 vpternlog predicates (x 3 shapes), memory operand sizes
+    around the 64-byte clamp for one instruction of every RW category, operand counts 0..6, a64 element index x size around 64"""
+    cmds = []
+    K = T["K"]
+    for iid in (K["kIdVpternlogd"], K["kIdVpternlogq"]):
+        for imm in range(256):
+            cmds.append("Q 1 %d 0 0 4 r11:1 r11:2 r11:3 i%d" % (iid, imm))
+            cmds.append("Q 1 %d 0 1 4 r13:1 r13:2 m64:2:0 i%d" % (iid, imm))
+        cmds.append("Q 1 %d 0 0 3 r11:1 r11:2 r11:3" % iid)
+    by_cat = {}
+    for i in T["I"]:
+        for row in (T["RA"][i["a"]], T["RB"][i["b"]]):
+            by_cat.setdefault(row["cat"], i["id"])
+    for cat, iid in sorted(by_cat.items()):
+        for sz in (0, 1, 63, 64, 65, 128, 255):
+            for arch in (0, 1):
+                cmds.append("Q %d %d 0 0 2 r11:1 m%d:2:0" % (arch, iid, sz))
+                cmds.append("Q %d %d 0 0 2 m%d:2:1 r5:1" % (arch, iid, sz))
+                cmds.append("Q %d %d 0 1 3 r13:1 r13:2 m%d:2:0" % (arch, iid, sz))
+        for n in range(0, 7):
+            cmds.append("Q 1 %d 0 0 %d %s" % (iid, n, " ".join(["r5:1", "r6:2", "r11:3", "m8:2:0", "i1", "r16:2"][:n])))
+    some = [i["id"] for i in TA["I"][:400:37]]
+    for iid in some:
+        for k, es in (("b", 1), ("h", 2), ("s", 4), ("d", 8)):
+            for idx in sorted(set(i for i in (0, 1, 64 // es - 1, 64 // es, 64 // es + 1, 15) if i < 16)):     # the operand's index field has 4 bits
+                cmds.append("A %d 2 e%s:1:%d v%s:2" % (iid, k, idx, "b16"))
     return cmds
 
 
@@ -276,7 +307,7 @@ def build_a64_access(ck, impl, TA):
     ganswers = run_stream(impl, ["G %d %d %s" % (x[0], len(x[1]), " ".join(x[1])) for _f, x in need], shards=4) if need else []
     untouched = len([g for g in ganswers if g.split()[1:3] == ["0", "0"]])
     build_a64_access.features = {"tuples_with_database_extension": len(need), "answers_that_leave_the_output_untouched": untouched,
-                                 "sample": ("%s %s" % (need[0][0]["name"], need[0][0]["ext"]), ganswers[0]) if need else None}
+                                 "first_tuple_and_answer": ("%s %s" % (need[0][0]["name"], need[0][0]["ext"]), ganswers[0]) if need else None}
     return forms, cands, cases, unsupported, len(forms_ok)
 
 
@@ -606,6 +637,7 @@ def run(ck):
         ck.notes.append("coq/gen regenerated for this run (working tree differs from the committed snapshot)")
         if failed:
             ck.coq_log = getattr(ck, "coq_log", "") + log
+    universal_names = re.findall(r"^Theorem\s+(\w+)", open(os.path.join(vlib.COQ, "theories", "Properties", "Properties_C12.v")).read(), re.M)
     # three property files so that a broken reflection lemma of one family does not take the other theorems down with it
     obl = ck.coq_properties(timeout=1500) + ck.coq_properties(module="Properties_C12_X86", gen_dir=gen_dir, timeout=1500) + \
         ck.coq_properties(module="Properties_C12_A64", gen_dir=gen_dir, timeout=1500)
@@ -646,8 +678,8 @@ def run(ck):
     if af and af["answers_that_leave_the_output_untouched"]:
         ck.violation("C12/a64-features/not-implemented",
                      "a64 query_features returns kOk without writing its output for %d of %d tuples whose database form requires an extension (e.g. %s -> %r)" % (
-                         af["answers_that_leave_the_output_untouched"], af["tuples_with_database_extension"], af["sample"][0], af["sample"][1]),
-                     {"command": "G ...", "sample": af["sample"]})
+                         af["answers_that_leave_the_output_untouched"], af["tuples_with_database_extension"], af["first_tuple_and_answer"][0], af["first_tuple_and_answer"][1]),
+                     {"command": "G ...", "first_tuple_and_answer": af["first_tuple_and_answer"]})
     for c in a64_cases:
         for (j, why) in c["bad"]:
             cmd = "A %d %d %s" % (c["cand"][0], len(c["cand"][1]), " ".join(c["cand"][1]))
@@ -670,6 +702,9 @@ def run(ck):
     if os.path.exists(corpus):
         cmds += [l.strip() for l in open(corpus) if l.strip() and not l.startswith("#")]
     cmds += random_cmds(rng, T, 20000 if ck.tier == "quick" else 400000)
+    nb = len(cmds)
+    cmds += boundary_cmds(T, TA)
+    n_boundary = len(cmds) - nb
     cmds += [G.cmd_of(x, "F") for _f, x in cands]
     cmds += random_feature_cmds(rng, T, 20000 if ck.tier == "quick" else 300000)
     cmds += ["A %d %d %s" % (x[0], len(x[1]), " ".join(x[1])) for _f, x in a64_cands + acc_cands]
@@ -738,9 +773,17 @@ def run(ck):
                         "query_features": getattr(build_a64_access, "features", None)},
          "a64_register_list_forms": len(a64_forms), "a64_cases": len(a64_cases), "a64_cases_run_not_reported": len([c for c in a64_cases if c["bad"]]), "cases_by_rw_category": dict(cat_hist),
          "regmem_claims_confirmed_by_database": rm_claims, "of_which_validator_refuses_substitution": rm_validator_refuses,
-         "correspondence_commands": len(cmds), "model_vs_impl_disagreements": disagreements,
+         "correspondence_commands": len(cmds), "correspondence_boundary_commands": n_boundary, "model_vs_impl_disagreements": disagreements,
          "traces_validated_against_impl": len(cmds),
-         "tablegen_regenerates_identically": diffs == [], "host_execution": hx, "query_features": fx},
+         "tablegen_regenerates_identically": diffs == [], "host_execution": hx, "query_features": fx,
+         "what_is_proved_vs_compared": {
+             "proved_for_all_inputs (Properties_C12.v, no generated data)": [n for n in universal_names if any(o["name"] == n and o["ok"] for o in ck.obligations)],
+             "proved_by_reflection_over_the_generated_lists (Properties_C12_X86.v / _A64.v)": {
+                 "x86_cases_covered_and_regmem_and_features": len(ok), "x86_cases_refuted_regmem_feature": len(rm_bad), "x86_cases_refuted_cover": len(cover_bad),
+                 "a64_register_list_cases": len(a64_cases), "a64_access_cases": len(acc_cases)},
+             "compared_model_vs_implementation (exact, every field)": {"commands": len(cmds), "of_which_boundary": n_boundary, "disagreements": disagreements},
+             "judged_by_the_independent_monitors (implementation vs database)": {"x86_tuples": len(cases), "a64_tuples": len(a64_cases) + len(acc_cases)},
+             "executed_on_the_host (obligation A everywhere, B on the quick subset / thorough)": hx.get("executed")}},
         assumptions=["the theorems are about the Gallina model of query_rw_info and the generated tables/cases; model = code is checked by the "
                      "differential run of this check on every database tuple and on random tuples",
                      "'what the processor does' is represented by db/isa_x86.json (operand access, bit ranges, zero-extension marks, implicit "
